@@ -23,6 +23,8 @@ from asynq.futures import ConstFuture, ErrorFuture, Future
 from asynq import scoped_value as _sv
 
 FID0 = 100000
+import threading
+_tls = threading.local()
 
 
 def fid_of(t, k, pos):
@@ -73,7 +75,7 @@ class HangError(BaseException):
 
 
 class Run(object):
-    def __init__(self, prog, schedule=None, tiebreak_seed=None, options=None):
+    def __init__(self, prog, schedule=None, tiebreak_seed=None, options=None, shared_dfns=None):
         self.prog = prog
         self.options = options
         self.schedule = schedule      # list of kinds, one per scheduler flush round (steering) or None
@@ -89,6 +91,7 @@ class Run(object):
         self.round = 0                # scheduler flush rounds begun
         self.in_sched_flush = []      # stack of batch ids between Before and After
         self.uid = 0
+        self.debug_bids = {}          # id(DebugBatch) -> batch id
         self.last_struct = {}         # t -> [(fid, obj)]
         self.svars = [None] + [_sv.AsyncScopedValue(0) for _ in range(prog.get("nvars", 0))]
         self.attrobj = _AttrObj(prog.get("nvars", 0))
@@ -100,7 +103,13 @@ class Run(object):
         for tdef in prog["tasks"]:
             d = tdef.get("dedup")
             if d and d["fn"] not in self.dfns:
-                self.dfns[d["fn"]] = self._make_dedup_fn(d["fn"])
+                if shared_dfns is not None:
+                    # one decorated function object shared by every thread (C16: the dedup scope is per thread)
+                    if d["fn"] not in shared_dfns:
+                        shared_dfns[d["fn"]] = self._make_dedup_fn(d["fn"], shared=True)
+                    self.dfns[d["fn"]] = shared_dfns[d["fn"]]
+                else:
+                    self.dfns[d["fn"]] = self._make_dedup_fn(d["fn"])
 
     # -- recording -------------------------------------------------------------------------------
     def emit(self, e, **kw):
@@ -262,7 +271,10 @@ class Run(object):
             return obj, V("F", w)
         fid = fid_of(t, k, p)
         if g == "I":
-            obj = VItem(self, s["n"], fid, t)
+            if self.prog["kinds"][s["n"] - 1].get("impl") == "debug":
+                obj = make_debug_item(self, s["n"], fid, t)
+            else:
+                obj = VItem(self, s["n"], fid, t)
         elif g == "C":
             obj = ConstFuture(s["n"])
             self.emit("NewFut", a=fid, b=1, v=V("c", s["n"]), u=0)
@@ -316,13 +328,14 @@ class Run(object):
         return [self.svars[i].get() for i in range(1, n + 1)] + [getattr(self.attrobj, "a%d" % i) for i in range(1, n + 1)]
 
     # -- task bodies -----------------------------------------------------------------------------
-    def _make_dedup_fn(self, g):
+    def _make_dedup_fn(self, g, shared=False):
         from asynq.tools import deduplicate
-        run = self
+        me_run = self
 
         @deduplicate()
         @asynq.asynq()
         def dfn(a, b=0):
+            run = _tls.run if shared else me_run
             me = _sched.get_active_task()
             t = run.obj_id[id(me)]
             return (yield from run._interp(t))
@@ -485,7 +498,7 @@ class Run(object):
             for k, v in saved.items():
                 setattr(_debug.options, k, v)
             schedmod.utime, schedmod.time = old_utime, old_time
-            profiler.reset()
+            self.nprof = len(profiler.flush())       # this thread's profiler buffer (also empties it)
 
     def _run(self):
         _sched.reset()
@@ -512,13 +525,20 @@ class Run(object):
         return self.events
 
     def _before(self, batch):
-        bid = getattr(batch, "bid", -1)
+        bid = getattr(batch, "bid", None)
+        if bid is None:
+            bid = self.debug_bids.get(id(batch), -1)
         self.round += 1
         self.in_sched_flush.append(bid)
         self.emit("Before", b=bid)
+        if id(batch) in self.debug_bids:
+            # DebugBatch has no harness _flush: its flush is observed from here
+            self.emit("FlushBegin", b=bid, a=1, xs=[getattr(i, "fid", -1) for i in batch.items])
 
     def _after(self, batch):
-        bid = getattr(batch, "bid", -1)
+        bid = getattr(batch, "bid", None)
+        if bid is None:
+            bid = self.debug_bids.get(id(batch), -1)
         if self.in_sched_flush and self.in_sched_flush[-1] == bid:
             self.in_sched_flush.pop()
         self.emit("After", b=bid)
@@ -639,6 +659,31 @@ class VItem(BatchItemBase):
         run.keep.append(self)
         run.emit("NewItem", a=fid, b=b.bid, t=t)
         self.on_computed.subscribe(lambda f: run._done(fid, f))
+
+
+def make_debug_item(run, kind, fid, t):
+    """an item of asynq's built-in DebugBatch (thread-local registry asynq.batching._debug_batch_state)"""
+    from asynq.batching import DebugBatchItem
+    it = DebugBatchItem("verif-k%d" % kind, IV(fid))
+    b = it.batch
+    if id(b) not in run.debug_bids:
+        n = run.batch_count.get(kind, 0) + 1
+        run.batch_count[kind] = n
+        bid = kind * 1000 + n
+        run.debug_bids[id(b)] = bid
+        run.keep.append(b)
+        run.emit("NewBatch", b=bid, a=kind)
+
+        def on_done(_b, bid=bid):
+            run.emit("FlushEnd", b=bid, a=0, u=0, v=VNONE)
+            run.emit("BatchDone", b=bid, a=0 if _b._error is None else 1)
+        b.on_computed.subscribe(on_done)
+    it.fid = fid
+    run.obj_id[id(it)] = fid
+    run.keep.append(it)
+    run.emit("NewItem", a=fid, b=run.debug_bids[id(b)], t=t)
+    it.on_computed.subscribe(lambda f: run._done(fid, f))
+    return it
 
 
 class _CtxMixin(object):
